@@ -12,6 +12,9 @@ streams derived from one PRNG:
               lexical class of a value, truncate, unterminated string / guid, comment marker inserted, separator
               removed.  Valid files are grammar-derived statement lists (incl. named INSERTs, leading commas, reserved
               words as identifiers) kept consistent with a running schema, or serialised random metamodels.
+    numerals  (before the streams) small valid files in which the digits at one position of the dialect (association number,
+              cardinality, values of every column type, both parts of a fraction, names, strings, guids, comments, stray tokens)
+              are a numeral of 1 - 20000 digits; positions x lengths are crossed completely on every run
 plus a few timing cases on adversarial families (long runs of one character).
 
   D  ModelLoader.input either returns or raises xtuml.ParsingException; after a rejected call the deep dump of
@@ -48,14 +51,14 @@ import gen_schema
 PROP = 'C12'
 RULE = ('four streams from one PRNG: arbitrary strings (15 %), random token sequences (14 %), valid files and their '
         'single-edit mutations (68 %; attribute names of one class may coincide apart from letter case, `mro` is in the '
-        'identifier pool), small files around case-variant attribute names and python class attributes (3 %); 2.5 % of the texts get a numeral of 39-3999 digits (with or without fraction, in a column of a declared type) and 2 % a lone surrogate; 1-4 texts per loader; 700 / 9000 extra small files crossing every column type with every lexical class of value (positional and named INSERT, null-valued keys); every third case is fed once more through filename_input / file_input / load_metamodel (files) and compared with what input() did; a case is non-trivial when at least one text was accepted and at least '
+        'identifier pool), small files around case-variant attribute names and python class attributes (3 %); 2.5 % of the texts get a numeral of 39-3999 digits (with or without fraction, in a column of a declared type) and 2 % a lone surrogate; 1-4 texts per loader; 700 / 9000 extra small files crossing every column type with every lexical class of value (positional and named INSERT, null-valued keys); 366 / 3000 extra small valid files in which the digits at ONE position are a numeral of 1 - 20000 digits: every position where the dialect has a run of digits (association number R<n>, cardinality, value of an integer / real / boolean / string / id column, integer and fractional part of a fraction, tail of a class / attribute / index name, inside of a string, phrase, guid, comment, stray token, any digit run of a grammar-derived file) is CROSSED with every length of 1, 2, 19, 20, 39, 309, 310, 639-641, 1000, 4299-4302, 5000, 8601, 20000 digits (random digits, one repeated digit, leading zeros, powers of ten), a third of them after a valid text on the same loader; every third case is fed once more through filename_input / file_input / load_metamodel (files) and compared with what input() did; a case is non-trivial when at least one text was accepted and at least '
         'one rejected, or the build ended in a documented exception; distinct = distinct text sequence')
 EXHAUSTIVE = {'quick': False, 'thorough': False}
 ASSUMPTIONS = [
     'the exception discipline and the running time are runtime facts: they are decided by the direct predicate on the '
     'implementation, the Lean theorems are about the loader as a state machine',
     "uuid texts whose 32 significant characters contain characters that only Python's int(x, 16) accepts (underscore, "
-    'blanks, sign, 0x, non-ASCII digits), numerals of more than 4000 digits and texts with lone surrogate code points (2 % of the '
+    'blanks, sign, 0x, non-ASCII digits), runs of 4000 or more digits (numerals, and digit runs in names, strings, guids, comments: the numeral family reaches 20000) and texts with lone surrogate code points (2 % of the '
     "texts get one in a comment, in a string literal or between the tokens; Lean's Char is a unicode scalar value) are outside the "
     "correspondence (D still applies: input() accepts or raises ParsingException, nothing else); "
     'texts with __x__ identifiers are INSIDE (rejected with MetaModelException at build since 7fb506e)',
@@ -594,7 +597,155 @@ def g_typed(rng):
     return rng.choice([' ', '\n']).join(parts)
 
 
+# --------------------------------------------------------------------------- NUMERAL POSITIONS x NUMERAL LENGTHS
+
+# every place of the dialect where a run of digits can stand
+NUMERAL_SLOTS = ['relid', 'card', 'card-c', 'int', 'int-in-real', 'int-in-other', 'real-int', 'real-frac', 'class-name', 'attr-name',
+                 'index-name', 'string', 'phrase', 'guid', 'comment', 'stray', 'digit-run']
+# lengths around the limits a numeral can meet on its way through python: machine integers (19 / 20 / 39 digits), the range of a
+# double (309), CPython's limit for int(str) / str(int) (sys.int_info.default_max_str_digits = 4300; 640 is the lowest value
+# that limit can be set to), and well beyond
+NUMERAL_LENGTHS = [1, 2, 19, 20, 39, 309, 310, 639, 640, 641, 1000, 4299, 4300, 4301, 4302, 5000, 8601, 20000]
+
+
+def g_digits(rng, n):
+    """a run of `n` digits: random, one repeated digit, leading zeros (all but the last digit / half of them), a power of ten"""
+    style = rng.choice(['random', 'random', 'ones', 'nines', 'zeros-one', 'zeros', 'half-zeros', 'power'])
+    if style == 'random':
+        return rng.choice('123456789') + ''.join(rng.choice('0123456789') for _ in range(n - 1))
+    if style == 'ones':
+        return '1' * n
+    if style == 'nines':
+        return '9' * n
+    if style == 'zeros-one':
+        return '0' * (n - 1) + '1'
+    if style == 'zeros':
+        return '0' * n
+    if style == 'half-zeros':
+        return '0' * (n // 2) + ''.join(rng.choice('0123456789') for _ in range(n - n // 2))
+    return '1' + '0' * (n - 1)
+
+
+DIGIT_RUN = re.compile(r'[0-9]+')
+
+
+def g_numerals(rng, slot, n):
+    """a small VALID file (two classes, an association between them, optionally an index, instances) in which the digits at ONE
+    position -- `slot`: the association number, a cardinality, a value of an integer / real / other column, the integer or the
+    fractional part of a fraction, the tail of a class / attribute / index name, the inside of a string, phrase, guid or comment,
+    a stray token -- are a numeral of `n` digits; slot `digit-run`: any maximal run of digits of a grammar-derived valid file
+    (wherever it stands: R1, 1C, x1, 42, 1.5, 'a1') is replaced.  Every other part of the file stays valid, so what happens to
+    the text is decided by that numeral alone."""
+    num = g_digits(rng, n)
+    if slot == 'digit-run':
+        text = join_tokens(rng, g_valid_tokens(rng, Env()), tight=0.02)
+        runs = list(DIGIT_RUN.finditer(text))
+        if runs:
+            mt = rng.choice(runs)
+            return text[:mt.start()] + num + text[mt.end():]
+        slot = 'relid'
+    core = gen_schema.CORE
+    kt = rng.choice(['INTEGER', 'INTEGER', 'INTEGER', 'STRING', 'UNIQUE_ID', 'REAL', 'BOOLEAN'])      # type of the key columns
+    ot = rng.choice([t for t in core if t not in ('INTEGER', 'REAL')])
+    X, Y = rng.choice([('X', 'Y'), ('Dog', 'Owner'), ('A', 'B'), ('x1', 'R_1')])
+    xid, yref, w, o = rng.choice(['Id', 'i', 'Key']), rng.choice(['X_Id', 'j', 'Ref']), rng.choice(['Weight', 'w']), rng.choice(['Other', 'o'])
+    iname = rng.choice(['I1', 'I2', 'Idx'])
+    sign = rng.choice(['', '', '-'])
+
+    def lit(t, k):
+        return {'INTEGER': str(k), 'REAL': '%d.5' % k, 'STRING': "'s%d'" % k, 'BOOLEAN': rng.choice(['TRUE', 'false', '1', '0']),
+                'UNIQUE_ID': '"00000000-0000-0000-0000-%012d"' % k}[t]
+
+    rel, card, phrase, comment, stray = 'R%d' % rng.choice([1, 2, 10, 0]), rng.choice(['1', '1C']), '', '', ''
+    keyv, wv, ov = lit(kt, 7), '2.5', lit(ot, 3)
+    if slot == 'relid':
+        rel = 'R' + num
+    elif slot == 'card':
+        card = num
+    elif slot == 'card-c':
+        card = num + rng.choice(['C', 'c'])
+    elif slot == 'int':
+        kt, keyv = 'INTEGER', sign + num
+    elif slot == 'int-in-real':
+        wv = sign + num
+    elif slot == 'int-in-other':
+        ov = sign + num
+    elif slot == 'real-int':
+        wv = sign + num + rng.choice(['.0', '.5', '.000001', '.25'])
+    elif slot == 'real-frac':
+        wv = sign + rng.choice(['0', '1', '42']) + '.' + num
+    elif slot == 'class-name':
+        X = X + rng.choice(['', '_']) + num
+    elif slot == 'attr-name':
+        xid = xid + rng.choice(['', '_']) + num
+    elif slot == 'index-name':
+        iname = rng.choice(['I', 'I_', '_']) + num
+    elif slot == 'string':
+        ot, ov = 'STRING', "'%s%s'" % (rng.choice(['', 'a', "''", '-']), num)
+    elif slot == 'phrase':
+        phrase = " PHRASE '%s'" % num
+    elif slot == 'guid':
+        ot, ov = 'UNIQUE_ID', '"%s%s"' % (rng.choice(['', '', '00000000-0000-0000-0000-', 'urn:uuid:', '{']), num)
+    elif slot == 'comment':
+        comment = '-- %s%s\n' % (rng.choice(['', 'R', 'v']), num)
+    elif slot == 'stray':
+        stray = rng.choice(['%s', '%s;', '(%s)', 'R%s', '%s.%s' % ('%s', num[:7])]) % num
+    many = rng.choice(['MC', 'M', '1C', '1'])
+    stmts = ['CREATE TABLE %s (%s %s, %s %s, %s %s);' % (X, xid, gen_schema.gen_type(rng, kt), w, gen_schema.gen_type(rng, 'REAL'),
+                                                         o, gen_schema.gen_type(rng, ot)),
+             'CREATE TABLE %s (Id INTEGER, %s %s);' % (Y, yref, gen_schema.gen_type(rng, kt))]
+    ends = ['%s %s (%s)' % (many, Y, yref), '%s %s (%s)%s' % (card, X, xid, phrase)]
+    stmts.append('CREATE ROP REF_ID %s FROM %s TO %s;' % (rel, ends[0], ends[1]))
+    if slot == 'index-name' or rng.random() < 0.5:
+        stmts.append('CREATE UNIQUE INDEX %s ON %s (%s);' % (iname, X, xid))
+    if rng.random() < 0.7:
+        stmts.append('INSERT INTO %s VALUES (%s, %s, %s);' % (X, keyv, wv, ov))
+    else:
+        stmts.append('INSERT INTO %s (%s, %s, %s) VALUES (%s, %s, %s);' % (X, o, xid, w, ov, keyv, wv))
+    for k in range(rng.randint(0, 2)):
+        stmts.append('INSERT INTO %s VALUES (%d, %s);' % (Y, k, keyv if rng.random() < 0.7 else lit(kt, 8)))
+    if rng.random() < 0.25:
+        rng.shuffle(stmts)
+    if comment:
+        stmts.insert(rng.randint(0, len(stmts)), comment)
+    if stray:
+        stmts.insert(rng.randint(0, len(stmts)), stray)
+    return rng.choice(['\n', ' ', '\n']).join(stmts) + rng.choice(['', '\n'])
+
+
+NUMERALS_BEFORE = 'CREATE TABLE P_Before (a INTEGER); INSERT INTO P_Before VALUES (4);'
+
+
+def g_numerals_cases(ctx, count, tag='numerals'):
+    """`count` cases; the first len(NUMERAL_SLOTS) * len(NUMERAL_LENGTHS) of them CROSS every position with every length (the
+    order of the cross is shuffled per seed), the others draw both at random; a third of the cases feed a valid text first, so
+    that a rejected numeral text has content to leave alone"""
+    cross = [(s, n) for s in NUMERAL_SLOTS for n in NUMERAL_LENGTHS]
+    ctx.rng.fork(tag, 'order').shuffle(cross)
+    for i in range(count):
+        rng = ctx.rng.fork(tag, i)
+        slot, n = cross[i] if i < len(cross) else (rng.choice(NUMERAL_SLOTS), rng.choice(NUMERAL_LENGTHS + [rng.randint(1, 9000)]))
+        text = g_numerals(rng, slot, n)
+        if rng.random() < 0.33:
+            yield {'texts': [NUMERALS_BEFORE, text], 'streams': ['valid', 'numerals'], 'slot': slot, 'digits': n}
+        else:
+            yield {'texts': [text], 'streams': ['numerals'], 'slot': slot, 'digits': n}
+
+
+def search(ctx, broken):
+    """targeted generator used when a tie is broken: first the numeral cross (positions x lengths) several times over, then the
+    ordinary streams at the enlarged size"""
+    for case in g_numerals_cases(ctx, 4 * len(NUMERAL_SLOTS) * len(NUMERAL_LENGTHS), tag='numerals-search'):
+        yield case
+    for case in generate(ctx):
+        yield case
+
+
 def generate(ctx):
+    # the numeral cross first (a few seconds): it is complete on every run, also when the time budget cuts the streams short on
+    # a loaded machine; every family draws from a PRNG forked by (family, index), so the order does not change any case
+    for case in g_numerals_cases(ctx, ctx.pick(len(NUMERAL_SLOTS) * len(NUMERAL_LENGTHS) + 60, 3000)):
+        yield case
     for case in generate0(ctx):
         yield case
     # extra cases AFTER the streams (which stay what they were)
@@ -632,6 +783,14 @@ def _timing_text(fam, n):
 
 
 # --------------------------------------------------------------------------- implementation side
+
+LONG_RUN = re.compile(r'\d{41,}')
+
+
+def _show(text, limit=300):
+    """`text` for a message: long runs of digits abbreviated (so that the position of a long numeral stays visible), then cut"""
+    return LONG_RUN.sub(lambda mt: '%s...<%d digits>' % (mt.group(0)[:8], len(mt.group(0))), text)[:limit]
+
 
 def _deep(statements):
     """per statement its class name and the fields the PARSER gave it (every attribute not starting with `_`), as texts"""
@@ -784,6 +943,9 @@ def run_impl(case):
     texts = case['texts']
     fails = []
     stats = {}
+    if 'slot' in case:
+        stats['numeral_at_' + str(case['slot'])] = 1
+        stats['numeral_digits_%s' % ('1-39' if case.get('digits', 0) <= 39 else '40-4300' if case.get('digits', 0) <= 4300 else 'over-4300')] = 1
 
     def fail(sig, what):
         if len(fails) < 3:
@@ -813,7 +975,7 @@ def run_impl(case):
                      'entries' % (k, text[:200], len(before), len(after)))
         except Exception as e:
             outs.append(Sym('other'))
-            fail('input-raises:%s' % type(e).__name__, 'input(%r) raised %s: %s' % (text[:300], type(e).__name__, str(e)[:200]))
+            fail('input-raises:%s' % type(e).__name__, 'input(%r) raised %s: %s' % (_show(text), type(e).__name__, str(e)[:200]))
         dt = time.process_time() - t0
         # acceptance is a function of the TEXT: a fresh loader classifies it the same way and parses the same statements
         if str(outs[-1]) in ('accepted', 'parsing'):
@@ -848,7 +1010,7 @@ def run_impl(case):
                  'lists differ in length: %r' % (type(exc).__name__, str(exc)[:120], [t[:400] for t in accepted]))
         else:
             fail('build-builtin:%s' % type(exc).__name__, 'build_metamodel raised %s: %s for accepted texts %r' % (
-                type(exc).__name__, str(exc)[:200], [t[:400] for t in accepted]))
+                type(exc).__name__, str(exc)[:200], [_show(t, 400) for t in accepted]))
     if gen_schema.OBS_UNAVAILABLE:
         stats['observation_unavailable'] = 1          # an internal field of a statement class is gone: marker instead of a crash
     stats['build_' + outcome] = 1
